@@ -77,14 +77,14 @@ def url_of(route, method):
     return (url or '/') + QUERY.get((route, method), '')
 
 
-def do(route, method, token, roles):
+def do(route, method, token, roles, version='1.39'):
     body = BODIES.get((route, method))
     if body is None and method in ('PUT', 'POST'):
         body = {}
     if route == '/traits/{name}' and method == 'PUT':
         body = None
     return app.call(method, url_of(route, method), copy.deepcopy(body),
-                    version='1.39', token=token, roles=roles)
+                    version=version, token=token, roles=roles)
 
 
 def allowed_formula(route, method, admin, service, reader, same):
@@ -95,12 +95,14 @@ def allowed_formula(route, method, admin, service, reader, same):
     return z3.Or(admin, service)
 
 
-def fam_callers():
+def fam_callers(version='1.39'):
     ops = operations()
 
     def path(ctx):
         app.setup()
         route, method = ops[symex.choose(len(ops))]
+        if version == 'sym':
+            app.sym_minor(ctx)
         has_token = ctx.bool('token')
         admin, service, reader, member, same = (
             ctx.bool(n) for n in ('admin', 'service', 'reader', 'member',
@@ -116,10 +118,11 @@ def fam_callers():
             tok = 'someone:' + ('proj' if symex.fork(same) else 'other')
         # reference: what an administrator with the service role gets
         with c14.world(ctx) as w0:
-            ref = do(route, method, 'admin:proj', 'admin,service,reader')
+            ref = do(route, method, 'admin:proj', 'admin,service,reader',
+                     version)
         with c14.world(ctx) as w:
             pre = w.dump()
-            r = do(route, method, tok, roles)
+            r = do(route, method, tok, roles, version)
             post = w.dump()
         is_root = route in ('/', '')
         declared = method in handler.ROUTE_DECLARATIONS[route]
@@ -162,7 +165,10 @@ def fam_callers():
                                      ref.status),
                                  sig='%s %s' % (method, route))
         return finish(ctx, '%d' % r.status)
-    return Family('callers', path, bounds=dict(
+    return Family('callers' if version != 'sym' else 'callers@sym', path,
+                  bounds=dict(
+        microversion=('symbolic minor 0..39: every version-specific variant '
+                      'of every handler') if version == 'sym' else version,
         operations=len(ops), caller_bits='token, admin, service, reader, '
         'member, same-project (symbolic, 2^6 combinations decided by forks)'))
 
@@ -250,7 +256,7 @@ def fam_overrides(lo, hi):
 
 def families(tier):
     n = len(documented_rules())
-    fams = [fam_callers()]
+    fams = [fam_callers(), fam_callers('sym')]
     if tier == 'quick':
         fams.append(fam_overrides(0, 6))
         fams.append(fam_overrides(n - 4, n))
